@@ -29,8 +29,9 @@ CHECKS = {
        "awaited nowhere); it yields the representation invariant ALSO across the oversize drop on resume. RELEASE ACCOUNTING FOR EVERY CALL "
        "(C08_step_accounts, C08_release_accounting: a walk through every function with its events): for every call other than acquire / "
        "register / restore_packets, the identifiers announced as released in the call are pairwise distinct, each was in use before, and "
-       "afterwards exactly the announced ones have turned free — or every identifier is free (the wholesale reset of a new session). "
-       "PARTIAL (C08_partial): which calls may reset, and the no-leak-on-close clause as a statement about ownership ghosts, are decided by "
+       "afterwards exactly the announced ones have turned free; only a call that starts a new session (CONNECT with Clean Start sent or "
+       "received, CONNACK that does not keep the session) may instead leave every identifier free — the wholesale reset. "
+       "PARTIAL (C08_partial): the no-leak-on-close clause as a statement about ownership ghosts is decided by "
        "the monitor (in-use set from the hook, ghost of application-held ids) on the implementation's traces, by the store stage (mon_c06: an accepted PUBLISH/PUBREL is sent or stored, so its identifier cannot leak) "
        "and by the allocator stage (C20's allocator correspondence and set-specification monitor on ValueAllocator traces whose range "
        "ends at the integer type's maximum: every id up to the maximum usable at once, exhaustion an error).",
